@@ -59,8 +59,9 @@ class C11(Check):
             "mutually-prefix and existing names, nil/empty/long values, re-created buckets, read-only write attempts, one multi-page bucket; "
             "whole tree dumped after every step. non-trivial = at least 2 steps and one successful mutation; distinct by input")
     N_QUICK = 220
-    N_THOROUGH = 6000
-    SHARD = 110
+    N_THOROUGH = 3000
+    SHARD = 75
+    WORKERS = 6
     PARTIAL_CLAUSES = [
         "crash atomicity and durability of the file (a committed transaction survives, a torn one does not) is bbolt's and trusted: "
         "the model's reopen is the identity on the committed tree; the check only exercises clean close+reopen",
@@ -69,6 +70,15 @@ class C11(Check):
     ]
     ASSUMPTIONS = ["bucket handles are re-resolved by path before every call (no use of a handle to a deleted bucket)",
                    "single goroutine: blocking of a second writer is modelled by the writer flag only"]
+
+    def gen_args(self, tier, seed):
+        args = Check.gen_args(self, tier, seed)
+        # VERIF_C11_PROBE=1 adds the backward walk over a leaf page emptied in the
+        # same transaction (bbolt's Prev stops early: reported finding; kind
+        # cursor_order_wrong at site bbolt/cursor.prev).  Off by default.
+        if os.environ.get("VERIF_C11_PROBE") == "1":
+            args[0].append("-probe-emptyleaf")
+        return args
 
     def nontrivial(self, c):
         steps = c["in"]["steps"]
@@ -91,6 +101,67 @@ class C11(Check):
             s = {"tags": c.get("tags"), "oracle": c.get("oracle"), "steps": len(c["in"]["steps"]),
                  "note": "sample too large to inline"}
         return s
+
+    # -- shards are evaluated in parallel (coqc is single-threaded) -----------
+    def evaluate_model(self, cases):
+        from concurrent.futures import ThreadPoolExecutor
+        starts = list(range(0, len(cases), self.SHARD))
+
+        def one(start):
+            text = self.render_cases(cases[start:start + self.SHARD])
+            return start, coq_eval(self.ID, text, "cases_%d" % start)
+        mism, logs, problems = [], "", []
+        with ThreadPoolExecutor(max_workers=self.WORKERS) as ex:
+            for start, (rc, out, err) in ex.map(one, starts):
+                logs += out[-2000:] + err[-2000:]
+                if rc != 0:
+                    problems.append("correspondence: cases file does not evaluate: " + err[-1500:])
+                    continue
+                bad = parse_nat_list(parse_printed(out, "bad"))
+                if bad is None:
+                    problems.append("correspondence: could not parse model output: " + out[-500:])
+                    continue
+                mism.extend(start + b for b in bad)
+        return sorted(mism), logs, problems
+
+    # -- shrinking: drop steps while the harness still reports the same
+    #    violation kind on the replayed input ---------------------------------
+    def shrink(self, case, kind):
+        budget = [40]
+
+        def still(inp):
+            if budget[0] <= 0 or not inp["steps"]:
+                return None
+            budget[0] -= 1
+            p = os.path.join(WORK, "shrink_%s_%d.jsonl" % (self.ID, os.getpid()))
+            with open(p, "w") as f:
+                f.write(json.dumps({"in": inp}) + "\n")
+            try:
+                rc, cs, _ = run_vh([self.vh_cmd(), "-replay", p], timeout=120)
+            except Exception:
+                return None
+            finally:
+                try:
+                    os.remove(p)
+                except OSError:
+                    pass
+            if rc == 0 and cs and kind in cs[0].get("oracle", []):
+                return cs[0]
+            return None
+        best = case
+        steps = list(case["in"]["steps"])
+        changed = True
+        while changed and budget[0] > 0:
+            changed = False
+            for cand in ([steps[:len(steps) // 2], steps[:-1]] +
+                         [steps[:i] + steps[i + 1:] for i in range(len(steps))]):
+                if len(cand) >= len(steps):
+                    continue
+                r = still({"steps": cand})
+                if r is not None:
+                    best, steps, changed = r, cand, True
+                    break
+        return best
 
     # -- rendering ----------------------------------------------------------
     def r_tree(self, I, t):
